@@ -265,6 +265,182 @@ theorem tie_treenodeChildConds : treenodeChildConds =
     "if newchild == nil",
     "if newchild != child"] := rfl
 
+/-- commitBlock: early return on an unfinished flush (async), block assembly, and the async revalidation (index, segment identity, flushing channel) (Model.C08.commitBlock / flushFiles; ASYNC cases) -/
+theorem tie_commitBlockConds : commitBlockConds =
+    ["if len(refs) == 0",
+    "if err != nil",
+    "if !sync && seg.flushingUnfinished()",
+    "if len(refs) == 1",
+    "if block == nil",
+    "if err != nil",
+    "if !sync",
+    "if len(ref.fn.segments) <= ref.idx",
+    "if !ok || seg != segs[idx]",
+    "if seg.flushing != done",
+    "if !sync",
+    "if sync"] := rfl
+
+/-- commitBlock: offsets recorded at assembly time, length taken from the segment's CURRENT buffer at completion time (`length: len(data)`) — the class of seeded change C08-b -/
+theorem tie_commitBlockAssigns : commitBlockAssigns =
+    ["offsets := make([]int, 0, len(refs))",
+    "seg.flushing = done",
+    "offsets = append(offsets, len(block))",
+    "block = seg.buf",
+    "block = append(make([]byte, 0, bufsize), seg.buf...)",
+    "block = append(block, seg.buf...)",
+    "blocksize := len(block)",
+    "ref.fn.segments[ref.idx] = storedSegment{ kc: dn.fs, locator: locator, size: blocksize, offset: offsets[idx], length: len(data), }"] := rfl
+
+/-- memSegment.flushingUnfinished: a closed channel is reset to nil (Model.C08 Flush.stale) -/
+theorem tie_commitBlockStored : commitBlockStored =
+    "{ if me.flushing == nil { return false } select { case <-me.flushing: me.flushing = nil return false default: return true } }" := rfl
+
+/-- pruneMemSegments: snapshot of idx/buf, flushing channel, replacement by a whole-block stored segment (Model.C08.pruneSegs / settleSegs) -/
+theorem tie_pruneAssigns : pruneAssigns =
+    ["idx, buf := idx, seg.buf",
+    "seg.flushing = done",
+    "fn.segments[idx] = storedSegment{ kc: fn.FS(), locator: locator, size: len(buf), offset: 0, length: len(buf), }"] := rfl
+
+/-- filenode.Write: every assignment to the segment list, the pointer, the size, cando and the repacked counters, in order (Model.C08.restructure / overwrite) — the class of seeded change C08-a / mutation M2 -/
+theorem tie_writeAssigns : writeAssigns =
+    ["cando := p",
+    "cando = cando[:maxBlockSize]",
+    "cando = cando[:max]",
+    "fn.segments = append(fn.segments, nil)",
+    "fn.segments = append(fn.segments, nil, nil)",
+    "fn.segments[cur+2] = fn.segments[cur+2].Slice(ptr.segmentOff+len(cando), -1)",
+    "fn.segments[cur] = seg",
+    "fn.segments[prev] = fn.segments[prev].Slice(0, ptr.segmentOff)",
+    "ptr.segmentIdx++",
+    "ptr.segmentOff = 0",
+    "fn.repacked++",
+    "ptr.repacked++",
+    "cando = cando[:fit]",
+    "cando = cando[:cangrow]",
+    "fn.fileinfo.size += int64(len(cando))",
+    "cando = cando[:el]",
+    "fn.segments = fn.segments[:len(fn.segments)-1]",
+    "fn.segments[cur] = fn.segments[cur].Slice(len(cando), -1)",
+    "ptr.segmentIdx--",
+    "ptr.segmentOff = fn.segments[prev].Len()",
+    "ptr.repacked++",
+    "fn.repacked++",
+    "fn.segments = append(fn.segments, nil)",
+    "ptr.repacked++",
+    "fn.repacked++",
+    "fn.segments[cur] = seg",
+    "ptr.off += int64(len(cando))",
+    "ptr.segmentOff += len(cando)",
+    "ptr.segmentOff = 0",
+    "ptr.segmentIdx++"] := rfl
+
+/-- filenode.truncate: repacked bump, cuts, size updates (Model.C08.truncate / growLoop) -/
+theorem tie_truncateAssigns : truncateAssigns =
+    ["fn.repacked++",
+    "fn.segments = fn.segments[:ptr.segmentIdx]",
+    "fn.segments = fn.segments[:ptr.segmentIdx+1]",
+    "fn.segments[ptr.segmentIdx] = seg.Slice(0, ptr.segmentOff)",
+    "fn.fileinfo.size = size",
+    "grow := size - fn.fileinfo.size",
+    "fn.segments = append(fn.segments, seg)",
+    "fn.segments = append(fn.segments, seg)",
+    "grow = maxgrow",
+    "fn.fileinfo.size += grow"] := rfl
+
+/-- filenode.seek: pointer updates (Model.C08.seek / locate) -/
+theorem tie_seekAssigns : seekAssigns =
+    ["ptr.segmentIdx = len(fn.segments)",
+    "ptr.segmentOff = 0",
+    "ptr.repacked = fn.repacked",
+    "ptr.segmentIdx++",
+    "ptr.segmentOff = 0",
+    "ptr.repacked = fn.repacked",
+    "ptr.segmentIdx, ptr.segmentOff = len(fn.segments), 0",
+    "ptr.segmentIdx, ptr.segmentOff = 0, 0",
+    "ptr.segmentIdx++",
+    "ptr.segmentOff = int(ptr.off - off)"] := rfl
+
+/-- filenode.Read: pointer/err updates (Model.C08.readAt) -/
+theorem tie_readAssigns : readAssigns =
+    ["err = ErrNegativeOffset",
+    "err = io.EOF",
+    "ptr.off += int64(n)",
+    "ptr.segmentOff += n",
+    "ptr.segmentIdx++",
+    "ptr.segmentOff = 0",
+    "err = nil"] := rfl
+
+/-- memSegment.ReadAt (Model.C08.Seg.readAt) -/
+theorem tie_memReadAtText : memReadAtText =
+    "{ if off > int64(me.Len()) { err = io.EOF return } n = copy(p, me.buf[int(off):]) if n < len(p) { err = io.EOF } return }" := rfl
+
+/-- storedSegment.ReadAt (Model.C08.Seg.readAt) -/
+theorem tie_storedReadAtConds : storedReadAtConds =
+    ["if off > int64(se.length)",
+    "if len(p) > maxlen",
+    "if err == nil"] := rfl
+
+/-- memSegment.Slice (Model.C08.Seg.slice) -/
+theorem tie_memSliceText : memSliceText =
+    "{ if length < 0 { length = len(me.buf) - off } buf := make([]byte, length) copy(buf, me.buf[off:]) return &memSegment{buf: buf} }" := rfl
+
+/-- collectionFileSystem.Flush: not-a-directory, non-recursive for path != "" (Model.C08_FS.doFlush) -/
+theorem tie_flushFsConds : flushFsConds =
+    ["if err != nil",
+    "if !ok",
+    "if path != \"\"",
+    "if ok"] := rfl
+
+/-- collectionFileSystem.newNode: name check, perm.IsDir (Model.C08_FS.addNode) -/
+theorem tie_newNodeConds : newNodeConds =
+    ["if name == \"\" || name == \".\" || name == \"..\"",
+    "if perm.IsDir()"] := rfl
+
+/-- filehandle.Write: the O_APPEND pointer (Model.C08.appendPtr) -/
+theorem tie_handleWriteAssigns : handleWriteAssigns =
+    ["f.ptr = filenodePtr{ off: fn.fileinfo.size, segmentIdx: len(fn.segments), segmentOff: 0, repacked: fn.repacked, }"] := rfl
+
+/-- filehandle.Seek: offset arithmetic and invalidation stamp -1 (Model.C08.Ptr.seekTo) -/
+theorem tie_handleSeekAssigns : handleSeekAssigns =
+    ["ptr.off = off",
+    "ptr.off += off",
+    "ptr.off = size + off",
+    "f.ptr = ptr",
+    "f.ptr.repacked = -1"] := rfl
+
+/-- filehandle.Readdir (count <= 0 path is modelled) -/
+theorem tie_handleReaddirConds : handleReaddirConds =
+    ["if !f.inode.IsDir()",
+    "if count <= 0",
+    "if f.unreaddirs == nil",
+    "if err != nil",
+    "if len(f.unreaddirs) == 0",
+    "if count > len(f.unreaddirs)"] := rfl
+
+/-- fileSystem.Stat = rlookup + FileInfo (Model.C08_FS.step Op.stat) -/
+theorem tie_statText : statText =
+    "{ node, err := rlookup(fs.root, name) if err != nil { return nil, err } return node.FileInfo(), nil }" := rfl
+
+/-- fileSystem.RemoveAll: trailing slashes trimmed, ErrNotExist becomes nil (Model.C08_FS.doRemove) -/
+theorem tie_removeAllText : removeAllText =
+    "{ err := fs.remove(strings.TrimRight(name, \"/\"), true) if os.IsNotExist(err) { err = nil } return err }" := rfl
+
+/-- fileSystem.Remove: trailing slashes trimmed -/
+theorem tie_removeText : removeText =
+    "{ return fs.remove(strings.TrimRight(name, \"/\"), false) }" := rfl
+
+/-- fileSystem.Create = O_CREATE|O_RDWR|O_TRUNC (Model.C08_FS.step Op.create) -/
+theorem tie_createText : createText =
+    "{ return fs.OpenFile(name, os.O_CREATE|os.O_RDWR|os.O_TRUNC, 0) }" := rfl
+
+/-- treenode.FileInfo: a directory's size is its number of entries (Model.C08_FS.dirSize) -/
+theorem tie_treenodeFileInfoText : treenodeFileInfoText =
+    "{ n.Lock() defer n.Unlock() n.fileinfo.size = int64(len(n.inodes)) return n.fileinfo }" := rfl
+
+/-- nullnode.Child: lookup below a file is ErrNotADirectory (Model.C08_FS.walk) -/
+theorem tie_nullnodeChildText : nullnodeChildText =
+    "{ return nil, ErrNotADirectory }" := rfl
+
 /-- the production limit satisfies the hypothesis `1 ≤ max` of every C08 theorem -/
 theorem tie_maxBlockSize_pos : (1 : Int) ≤ maxBlockSize := by decide
 
